@@ -19,7 +19,7 @@ RULE = ("tables, not datasets: a lookup metric returns a prescribed value for ea
         "to_overall<=between_groups inequality. non-trivial = table not constant; distinct = distinct table descriptors")
 ASSUMPTIONS = ["table entries are drawn from a dyadic palette (selected by VERIF_SEED); non-scalar metric cells are not explored",
                "for sign-mixed tables the to_overall ratio of the implementation follows '1/r if r>1 else r' (known finding F12)"]
-CLASSES = ["zero_denominator", "all_equal", "nan_group", "control_strata", "empty_stratum", "negative_values_thorough",
+CLASSES = ["second_metric_with_nan", "zero_denominator", "all_equal", "nan_group", "control_strata", "empty_stratum", "negative_values_thorough",
            "mean_metric_dataset"]
 
 PALETTES = [(0.0, 0.5, 1.0, 2.0), (0.0, 0.25, 1.0, 4.0), (0.0, 1.0, 3.0, 0.5), (0.0, 0.75, 1.0, 1.5)]
@@ -162,6 +162,18 @@ def run_case(case):
                     V.append(viol("C02:errors:raise!=coerce", "%s: raise=%r coerce=%r groups=%r overall=%r" % (
                         k, per_err["raise"][k], per_err["coerce"][k], gv, ov)))
             outcome.append([None if math.isnan(float(v)) else float(v) for v in per_err["raise"].values()])
+        # two metrics in one frame: a NaN cell of metric 'n' on a NON-empty group must not influence the aggregates of metric 'm'
+        if mode == "plain" and G >= 2:
+            out["classes"].add("second_metric_with_nan")
+            for nan_at in range(G):
+                t2 = {frozenset([i]): (float("nan") if i == nan_at else float(i + 1)) for i in range(G)}
+                t2[frozenset(range(G))] = 1.0
+                out["evals"] += 1
+                mf = MetricFrame(metrics={"m": _mk_lookup(table), "n": _mk_lookup(t2)}, y_true=ids, y_pred=ids, sensitive_features=sfeat)
+                for err in ("raise", "coerce"):
+                    obs = _observe(mf, "dict", err)
+                    _compare(V, "dict2/%s/nan@%d" % (err, nan_at), obs, R, "groups=%r overall=%r, second metric NaN on group %d" % (gv, ov, nan_at), neg,
+                             nonneg=min(list(gv) + [ov]) >= 0)
         out["outcome"] = outcome
     else:
         strata = case["strata"]
